@@ -1,6 +1,6 @@
-(* C03 — I = S since the fixes of F16/F17/F21/F22: the same check (kept so that the run-module list is stable). *)
+(* C03 — I = S (every finding of this property is repaired in /repo): the same check as Run.v, kept so that the
+   run-module list stays stable. *)
 From Coq Require Import List ZArith NArith Bool.
 Import ListNotations.
-From Verif.C03 Require Export Model.
 From Verif.C03 Require Export Run.
-Definition mismatch_ids := mismatch_from (check_with false) 0%N.
+Definition mismatch_ids := Run.mismatch_ids.
